@@ -49,13 +49,14 @@ def run(prop, tier, seed, replay=None):
         n = 1500000
     else:
         ents = corpus.build_corpus(cdir, seed, r_sample=60, n_s=80, n_early=6, n_ancient=4, n_z=20, want_fixed=False)
-        n = 40000
+        n = 30000
     bases = os.path.join(cdir, "list.txt")
     common = ["--bases", bases, "--n", str(n), "--seed", str(seed), "--workers", str(core.ncpu())]
     ra = replay.get("replay_args", {}) if replay else {}
     if "case" in ra:
         common += ["--only-case", str(ra["case"])]
     env = build.san_env("asan")
+    env["ASAN_OPTIONS"] += ":malloc_fill_byte=255:max_malloc_fill_size=268435456"
     out = os.path.join(chk.workdir, "asan")
     res, rc = core.run_monitor(exe, common + ["--case-timeout", "20"], env, out, timeout=7200 if tier == "thorough" else 1200)
     # hangs: re-run each once alone with a generous watchdog before believing it
@@ -83,6 +84,23 @@ def run(prop, tier, seed, replay=None):
             chk.violation(key + ":" + flav + "-build", "case=%d %s (%s)" % (case, desc, how), files=[errfile], replay_args=dict(monitor="loadmon", case=case))
         if rc2 != 0:
             chk.inconclusive_because("%s build run failed" % flav)
+    # determinism across heap pre-fill: a second ASan run whose malloc'ed memory is zero-filled instead of 0xff-filled
+    o2 = os.path.join(chk.workdir, "asan-fill00")
+    env2 = build.san_env("asan")
+    env2["ASAN_OPTIONS"] += ":malloc_fill_byte=0:max_malloc_fill_size=268435456"
+    r3, rc3 = core.run_monitor(exe, common + ["--digest-only", "--case-timeout", "60"], env2, o2, timeout=7200 if tier == "thorough" else 1200)
+    dig["asan00"] = read_digests(o2)
+    heap_compared = heap_diff = 0
+    for case, (h, ok, cls, label) in dig["asan"].items():
+        z = dig["asan00"].get(case)
+        if z is None:
+            continue
+        heap_compared += 1
+        if z[0] != h:
+            heap_diff += 1
+            chk.violation("nondeterministic-across-heap-fill:%s" % cls,
+                          "case=%d mutation=%s: outcome digest differs between malloc_fill_byte=0xff (%s) and 0x00 (%s)" % (case, label, h, z[0]),
+                          replay_args=dict(monitor="loadmon", case=case))
     ndiff = 0
     compared = 0
     for case, (h, ok, cls, label) in dig["pat"].items():
@@ -103,7 +121,8 @@ def run(prop, tier, seed, replay=None):
     cov = dict(evaluations=res.stat("C12.evaluations"), distinct_nontrivial=len(res.dist.get("C12", ())), rule=RULE,
                samples=res.samples.get("C12", [])[:5], base_files=len(ents), sanitizer_reports=len(res.crashes),
                hangs_confirmed=len(confirmed), digests_compared_pattern_vs_zero=compared, digest_differences=ndiff,
-               flavours_run=["asan (address+undefined, fatal)", "pat (-ftrivial-auto-var-init=pattern)", "zero (-ftrivial-auto-var-init=zero)"])
+               digests_compared_heap_fill_ff_vs_00=heap_compared, heap_fill_digest_differences=heap_diff,
+               flavours_run=["asan (address+undefined, fatal; heap filled with 0xff)", "asan with heap filled with 0x00 (digests only)", "pat (-ftrivial-auto-var-init=pattern)", "zero (-ftrivial-auto-var-init=zero)"])
     for k, v in sorted(res.stats.items()):
         if k.startswith("C12.") and k.split(".", 1)[1] not in ("evaluations", "distinct_nontrivial"):
             cov[k.split(".", 1)[1]] = v
